@@ -64,8 +64,8 @@ pub fn decode_serve(data: &[u8]) -> Option<ServeCase> {
 }
 
 fn with_sink<R>(f: impl FnOnce(&mut Sink) -> R) -> R {
-    let ctx = Ctx { tier: Tier::Quick, leg: Leg::Asan, seed: 0, threads: 1, shard: (0, 1), max_cases: 0, stride: 1 };
-    let shared = Shared { admitted: AtomicU64::new(0), stop: AtomicBool::new(false) };
+    let ctx = Ctx { tier: Tier::Quick, leg: Leg::Asan, seed: 0, threads: 1, shard: (0, 1), max_cases: 0, stride: 1, time_budget_s: 0 };
+    let shared = Shared { admitted: AtomicU64::new(0), stop: AtomicBool::new(false), started: std::time::Instant::now() };
     let mut sink = Sink::new(&ctx, &shared);
     f(&mut sink)
 }
